@@ -96,4 +96,40 @@ def dictGet {κ β} [BEq κ] (d : List (κ × β)) (k : κ) : M β :=
 def dictSet {κ β} [BEq κ] (d : List (κ × β)) (k : κ) (x : β) : List (κ × β) :=
   if dictHas d k then d.map (fun p => if p.1 == k then (p.1, x) else p) else d ++ [(k, x)]
 
+/-! ### primitives used by the rest of complex_utils.py and by iupac_utils.py -/
+
+/-- the groups of `itertools.groupby` that are still to come when the current group has the key `k` (the key of its FIRST
+    element: `tgtkey`) and the elements `cur` (latest first): the next element joins the group iff `tgtkey == currkey` -/
+def groupbyGo {α κ} [BEq κ] (key : α → κ) : κ → List α → List α → List (κ × List α)
+  | k, cur, [] => [(k, cur.reverse)]
+  | k, cur, y :: ys =>
+    if k == key y then groupbyGo key k (y :: cur) ys
+    else (k, cur.reverse) :: groupbyGo key (key y) [y] ys
+
+/-- `[(k, list(g)) for k, g in itertools.groupby(l, key)]`: the maximal runs of CONSECUTIVE elements with equal keys, each
+    with its key, in order (no sorting, equal keys that are not adjacent make separate groups) -/
+def groupby {α κ} [BEq κ] (key : α → κ) : List α → List (κ × List α)
+  | [] => []
+  | x :: xs => groupbyGo key (key x) [x] xs
+
+/-- the rest of `s.split(sep)` when the piece being read is `cur` (latest character first) -/
+def splitGo (sep : Char) : List Char → List Char → List (List Char)
+  | cur, [] => [cur.reverse]
+  | cur, c :: cs => if c == sep then cur.reverse :: splitGo sep [] cs else splitGo sep (c :: cur) cs
+
+/-- `s.split(sep)` for a str `s` (its characters) and a ONE-character separator: the pieces between the occurrences of
+    `sep`, empty pieces kept, never the empty list (`''.split('+') == ['']`) -/
+def split (s : List Char) (sep : Char) : List (List Char) := splitGo sep [] s
+
+/-- `sep.join(parts)` for strs kept as the lists of their characters -/
+def strJoin (sep : List Char) : List (List Char) → List Char
+  | [] => []
+  | [s] => s
+  | s :: t :: rest => s ++ sep ++ strJoin sep (t :: rest)
+
+/-- `functools.reduce(f, l)` without an initial value: TypeError for an empty `l`, else `f(…f(f(l0, l1), l2)…, ln)` -/
+def reduce {α} (f : α → α → α) : List α → M α
+  | [] => throw (.fault "TypeError")
+  | x :: xs => pure (xs.foldl f x)
+
 end Dsd.Py
